@@ -215,6 +215,29 @@ var prefixes = []string{
 	`[[1,2],`, `[{"a":1},`, `{"a":[1],`, `{"a":{"b":1},`, `[[[[`, `{"a":{"b":{"c":`, `[1,2,3`, `{"a":1,"b":2`,
 }
 
+// The number modes branch on data as well (a number that has spilled into the big-number
+// buffer takes other code in the same mode), so every number state is also entered with
+// numbers of 19-20 and more digits, long fractions and long exponents.
+func init() {
+	for _, ctx := range []string{"", "[", `{"a":`, "[1,"} {
+		for _, sign := range []string{"", "-"} {
+			for _, big := range []string{"12345678901234567890", "9223372036854775808", "123456789012345678901234567890"} {
+				for _, tail := range []string{"", ".", ".5", "e", "e+", "e5", ".5e", ".5e-", ".5e-5", ".5E+5"} {
+					prefixes = append(prefixes, ctx+sign+big+tail)
+				}
+			}
+			for _, frac := range []string{"1.12345678901234567890", "0.00000000000000000001", "1.5e1234567890", "1e-000000000000000000001"} {
+				for _, tail := range []string{"", "e", "e-"} {
+					if strings.Contains(frac, "e") && tail != "" {
+						continue
+					}
+					prefixes = append(prefixes, ctx+sign+frac+tail)
+				}
+			}
+		}
+	}
+}
+
 var suffixes = []string{"", "]", "}", `"`, "0", "1]", ":1}", ",1]", `"]`, `"}`, "ll", "l", "e1", ".5", "ue", "e", "se", " ", "\n", ",", `":1}`, "1", "5]", "0}", `,"b":2}`, "]]", "}}", `0"]`, `00"`, `000"`}
 
 func TestEnumMatrix(t *testing.T) {
